@@ -131,8 +131,8 @@ def check_plan(r, w, plan, final, tags):
                            "non-interfering", str(j), tags=t + [kind])
                     return False
                 if constraint:
-                    args = [x for n, a in members for x in a]
-                    if len(args) != len(set(args)):
+                    sets = [set(a) for n, a in members]
+                    if any(sets[i] & sets[j2] for i in range(len(sets)) for j2 in range(i + 1, len(sets))):
                         r.fail("concurrency-constraint", f"{label}: joint action #{k} {j} shares an object between members",
                                "disjoint arguments", str(j), tags=t)
                         return False
